@@ -610,7 +610,7 @@ pub fn check(c: &Case, obs: &mut Obs) -> Result<(), String> {
 pub fn property() -> Property {
     Property {
         id: "C12",
-        rule: "A scratch directory (created and removed by the case) holds one file at <root>/[d1/[d2/]]name with content from {empty, text with/without final LF and with '$NetBSD' lines, random binary, patterned data up to 20 KiB}; names are distfile and patch names incl. non-UTF-8 and the patch exceptions. A Distinfo (built from text or through the API) records 0-4 entries: the file under one of its trailing sub-paths (name, d2/name, d1/d2/name), decoys sharing a tail (x/name) and unrelated names; each with 0-4 checksums of distinct algorithms whose recorded value is the M-hash digest (patch_filter applied for patches) of the content or of a corrupted basis (one bit flipped, byte appended, last byte removed), left correct or itself corrupted (one hex digit changed, truncated, upper-cased, literal), and a size that is absent / correct / +-1 / literal. Oracle: find_entry = entry of the shortest recorded trailing sub-path (else NotFound); verify_size Ok(size) iff length equal, else Size(name, expected, actual) / MissingSize; verify_checksum(alg) for all six algorithms Ok iff recorded == M-hash(content or filtered content), else Checksum(name, alg, expected, actual) with exact values / MissingChecksum / NotFound; verify_checksums = per-checksum results in recorded order; calculate_checksum / calculate_size = M-hash / length. Non-trivial = a corruption is detected, a decoy entry exists, or the file lies in a sub-directory. Distinct = distinct cases.",
+        rule: "A scratch directory (created and removed by the case) holds one file at <root>/[d1/[d2/]]name with content from {empty, text with/without final LF and with '$NetBSD' lines, random binary, patterned data up to 20 KiB}; names are distfile and patch names incl. non-UTF-8 and the patch exceptions. A Distinfo (built from text or through the API) records 0-4 entries: the file under one of its trailing sub-paths (name, d2/name, d1/d2/name), decoys sharing a tail (x/name) and unrelated names; each with 0-4 checksums of distinct algorithms whose recorded value is the M-hash digest (patch_filter applied for patches) of the content or of a corrupted basis (one bit flipped, byte appended, last byte removed), left correct or itself corrupted (one hex digit changed, truncated, upper-cased, literal), and a size that is absent / correct / +-1 / literal. Oracle: find_entry = entry of the shortest recorded trailing sub-path (else NotFound); verify_size Ok(size) iff length equal, else Size(name, expected, actual) / MissingSize; verify_checksum(alg) for all six algorithms Ok iff recorded == M-hash(content or filtered content), else Checksum(name, alg, expected, actual) with exact values / MissingChecksum / NotFound; verify_checksums = per-checksum results in recorded order; calculate_checksum / calculate_size = M-hash / length. Non-trivial = a corruption is detected, a decoy entry exists, or the file lies in a sub-directory. Distinct = distinct cases. Generators also draw, at low weight, tokens from the source-literal dictionary (every string / byte / character literal of the library's own source, collected at build time and filtered by this domain's character class); recorded names also: the file name minus its first 1-3 bytes, and the trailing components with 'lib' / 'x' / '-' / '.' glued in front (textual suffix / prefix relatives that are no trailing sub-path).",
         assumptions: vec![
             "at most one recorded hash per algorithm and entry",
             "patch files are recorded under their file name only; recorded names classify unambiguously",
